@@ -229,7 +229,7 @@ macro_rules! c17_quick_sort_2_harness {
     };
 }
 
-// @harness id=c17_quick_sort_2_r04 props=C17 tier=quick cap=1200
+// @harness id=c17_quick_sort_2_r04 props=C17 tier=thorough cap=1200
 // @desc do_std_sort_quick_sort_2 on the whole of a 4-element permutation vector with arbitrary entries and arbitrary comparison outcomes, while 2 unrelated outcomes of an enclosing computation sit below them on cmp_ord_stack: the range becomes [items that compared Less, in order] ++ [pivot] ++ [the others, in order] (stable partition), the enclosing outcomes are untouched, exactly this step's outcomes are consumed, and the scheduled sub-sorts are exactly the two classes when longer than one
 // @bound vector of 4 arbitrary entries, range 0..4, 2 foreign outcomes below
 // @funcs Evaluator::do_std_sort_quick_sort_2
